@@ -7,6 +7,12 @@ ids = [p["id"] for p in props]
 
 # id -> (engine, technique, level text, level note, design ref)
 CLAIMED = {
+ "C06": ("E-PROG (deflate), E-DEF", "proptest stateful generation (operation sequences with arbitrary integer arguments, shrunk as one value) + legal sessions; guard-page buffers, process isolation, status-domain and progress oracles",
+         "exploration: generated programs over the whole deflate API (incl. hundreds of deflatePrime calls, resets, copies, big gzip header fields, 0/1-byte buffers) must not kill the worker, must return only statuses the zlib manual lists, and a Z_FINISH loop with fresh space must produce >= 1 byte per call and end; legal sessions (arbitrary deflateTune integers) must finish, and sessions that saw Z_BUF_ERROR must still round-trip",
+         "documented preconditions are built in (valid pointers, deflatePrime on raw streams before the first deflate with bits <= 16); a hang inside one call is exit 2 (watchdog), not a violation", "DESIGN.md 6 (C06)"),
+ "C16": ("E-PROG + zlib-ng", "proptest stateful generation of API programs (<= 48 operations, arbitrary integer arguments, NULL stream/buffers where zlib defines the result) executed on zlib-ng 2.3.3 (pre-screened in a forked child) and zlib-rs in lock-step; differential oracle per operation",
+         "exploration: per operation equal return value and, for data-moving operations, equal bytes consumed/produced and output bytes; reference-validity rules documented in DESIGN.md (32 KiB inflate windows only, deflatePrime/inflatePrime in their documented position, ResetKeep after an error run as Reset, zlib-ng's stale-state-dependent output after deflateReset re-judged against zlib-ng fresh, slot after deflateResetKeep at level 1 not compared)",
+         "zlib-ng is the specification only where it is itself consistent; known finding: inflateUndermine status (pinned by an upstream test)", "DESIGN.md 6 (C16)"),
  "C10": ("E-TWIN", "proptest generation of histories x twin axis (CPU mask via hook H1, garbage fill of output/allocator memory, buffer placement, 2..16 concurrent threads); per-call comparison of twins; per-case digests compared across the ref, scalar (no std) and AVX-512 builds by the driver",
          "exploration: the same deflate/inflate history executed under two CPU masks / fills / placements, in concurrent threads vs alone, and in three differently dispatched builds must agree on every status, counter, adler, data_type and output byte",
          "threads: the harness does not own the schedule; with one relaxed atomic as the only shared state this is evidence of independence, not an exploration of interleavings. NEON/LSX/wasm paths are not compiled here", "DESIGN.md 6 (C10)"),
